@@ -1,3 +1,143 @@
-From ZV Require Import Lib.Base Model.Tombstone.
-Theorem C17_placeholder : True. Proof. exact I. Qed.
-Print Assumptions C17_placeholder.
+(** C17 — tombstoned repositories and paths stay hidden; set/unset is idempotent, isolated, survives
+    reload, is undone by its inverse, and a reported success has taken effect.
+    Model: Model/Tombstone.v (set_tombstone = index/tombstones.go:setTombstone after the repair
+    `fix: setTombstone: return the error when renaming the sidecar fails`; effective/load =
+    parseMetadata's sidecar precedence; search/list_repos/simplify = indexData.Search / List /
+    simplifyMultiRepo + query.Simplify's constant folding).  Proofs: Proofs/TombstoneProofs.v. *)
+From ZV Require Import Lib.Base Model.Tombstone Proofs.TombstoneProofs.
+
+(** Search returns EXACTLY the documents of alive repositories, at non-tombstoned paths, that satisfy
+    the query as written — for every query (any boolean combination of arbitrary predicates on
+    repository names and documents); simplifyMultiRepo/constant folding never change that. *)
+Theorem C17_search_exact : forall v q i r d,
+  In (i, r, d) (search v q) <->
+  exists k, i = N.of_nat k /\ nth_error (v_docs v) k = Some d /\
+            visible (v_repos v) d = Some r /\ eval q r d = true.
+Proof. exact search_spec. Qed.
+Print Assumptions C17_search_exact.
+
+Theorem C17_hidden_in_search : forall v q i r d,
+  In (i, r, d) (search v q) ->
+  nth_error (v_repos v) (d_repo d) = Some r /\ r_tomb r = false /\ memN (d_file d) (r_ftombs r) = false.
+Proof. exact hidden_in_search. Qed.
+Print Assumptions C17_hidden_in_search.
+
+Theorem C17_hidden_in_list : forall v q r,
+  In r (list_repos v q) ->
+  In r (v_repos v) /\ r_tomb r = false /\
+  (simplify (v_repos v) q = QConst true \/
+   exists i r' d, In (i, r', d) (search v q) /\ r_name r' = r_name r).
+Proof. exact list_spec. Qed.
+Print Assumptions C17_hidden_in_list.
+
+(** success => effective, under every fault; and after a reload the repository is hidden from every query *)
+Theorem C17_success_effective : forall f id b ft f',
+  set_tombstone f id b ft = (f', Ok tt) ->
+  exists rs', effective f' = Some rs' /\ forall r, In r rs' -> r_id r = id -> r_tomb r = b.
+Proof. exact success_effective. Qed.
+Print Assumptions C17_success_effective.
+
+Theorem C17_set_survives_reload_and_hides : forall f id ft f' v,
+  set_tombstone f id true ft = (f', Ok tt) -> load f' = Some v ->
+  forall q, (forall i r d, In (i, r, d) (search v q) -> r_id r <> id) /\
+            (forall r, In r (list_repos v q) -> r_id r <> id).
+Proof. exact set_hides. Qed.
+Print Assumptions C17_set_survives_reload_and_hides.
+
+(** what was wrong before the repair: a failing rename was reported as success *)
+Theorem C17_success_effective_before_fix_refuted :
+  exists f id b ft f', set_tombstone_before_fix f id b ft = (f', Ok tt) /\
+    exists rs' r, effective f' = Some rs' /\ In r rs' /\ r_id r = id /\ r_tomb r <> b.
+Proof. exact success_effective_before_fix_refuted. Qed.
+Print Assumptions C17_success_effective_before_fix_refuted.
+
+Theorem C17_error_changes_nothing : forall f id b ft f' e,
+  set_tombstone f id b ft = (f', Err e) -> f' = f.
+Proof. exact error_unchanged. Qed.
+Print Assumptions C17_error_changes_nothing.
+
+Theorem C17_set_isolated : forall f id b ft f' rs,
+  set_tombstone f id b ft = (f', Ok tt) -> effective f = Some rs ->
+  exists rs', effective f' = Some rs' /\ length rs' = length rs /\
+    forall i r, nth_error rs i = Some r ->
+      exists r', nth_error rs' i = Some r' /\
+        r_id r' = r_id r /\ r_name r' = r_name r /\ r_ftombs r' = r_ftombs r /\ r_other r' = r_other r /\
+        (r_id r <> id -> r' = r) /\ (r_id r = id -> r_tomb r' = b).
+Proof. exact set_isolated. Qed.
+Print Assumptions C17_set_isolated.
+
+Theorem C17_documents_and_temp_files_untouched : forall f id b ft,
+  fs_shard (fst (set_tombstone f id b ft)) = fs_shard f /\
+  fs_tmps (fst (set_tombstone f id b ft)) = fs_tmps f /\
+  is_panic (snd (set_tombstone f id b ft)) = false.
+Proof. intros. split; [apply shard_untouched|split; [apply no_temp_left|apply never_panics]]. Qed.
+Print Assumptions C17_documents_and_temp_files_untouched.
+
+Theorem C17_set_idempotent : forall f id b f1 f2,
+  set_tombstone f id b NoFault = (f1, Ok tt) ->
+  set_tombstone f1 id b NoFault = (f2, Ok tt) -> f2 = f1.
+Proof. exact set_idempotent. Qed.
+Print Assumptions C17_set_idempotent.
+
+(** unset after set (b = false) / set after unset (b = true) restores the metadata and hence every
+    search and list result, provided all repositories with that id had flag b before *)
+Theorem C17_inverse_restores : forall f id b rs f1 f2,
+  effective f = Some rs ->
+  (forall r, In r rs -> r_id r = id -> r_tomb r = b) ->
+  set_tombstone f id (negb b) NoFault = (f1, Ok tt) ->
+  set_tombstone f1 id b NoFault = (f2, Ok tt) ->
+  effective f2 = effective f /\ load f2 = load f.
+Proof. exact inverse_restores. Qed.
+Print Assumptions C17_inverse_restores.
+
+(** histories with arbitrary fault sequences: the metadata after the history is the fold of exactly
+    the operations that reported success; the documents and the temp-file count never change *)
+Theorem C17_history : forall ops f rs,
+  effective f = Some rs ->
+  effective (fst (run_hist f ops)) = Some (fold_left apply_ok ops rs) /\
+  snd (run_hist f ops) = map reports ops /\
+  fs_shard (fst (run_hist f ops)) = fs_shard f /\
+  fs_tmps (fst (run_hist f ops)) = fs_tmps f.
+Proof. exact history_effect. Qed.
+Print Assumptions C17_history.
+
+Theorem C17_wf_preserved : forall f id b ft, wf f -> wf (fst (set_tombstone f id b ft)).
+Proof. exact wf_preserved. Qed.
+Print Assumptions C17_wf_preserved.
+
+(** ---- non-vacuity: a compound shard with two repositories, a file tombstone, a sidecar-less start *)
+Definition ex_sh := mkShard [mkRepo 1 1 false [] 10; mkRepo 2 2 false [5%N] 20]
+                            [mkDoc 0 3 [0%N]; mkDoc 1 5 [0%N]; mkDoc 1 4 [0%N; 1%N]].
+Definition ex_fs := mkFs (Some ex_sh) None 0.
+Definition ex_q := QAnd (QDoc (fun d => memN 0 (d_words d))) (QNot (QRepo (fun n => N.eqb n 9))).
+
+Example ex_wf : wf ex_fs.
+Proof. unfold wf, ex_fs; simpl. split; [repeat constructor|exact I]. Qed.
+(* before: docs 0 and 2 are found (doc 1 is a tombstoned path); both repositories are listed *)
+Example ex_search_before :
+  option_map (fun v => map (fun x => fst (fst x)) (search v ex_q)) (load ex_fs) = Some [0%N; 2%N].
+Proof. vm_compute. reflexivity. Qed.
+Example ex_list_before :
+  option_map (fun v => map r_id (list_repos v ex_q)) (load ex_fs) = Some [1%N; 2%N].
+Proof. vm_compute. reflexivity. Qed.
+(* set 2, reload: only doc 0 / repo 1; the operation reported success *)
+Example ex_set : snd (set_tombstone ex_fs 2 true NoFault) = Ok tt.
+Proof. reflexivity. Qed.
+Example ex_search_after :
+  option_map (fun v => map (fun x => fst (fst x)) (search v ex_q)) (load (fst (set_tombstone ex_fs 2 true NoFault))) = Some [0%N].
+Proof. vm_compute. reflexivity. Qed.
+Example ex_list_after :
+  option_map (fun v => map r_id (list_repos v (QConst true))) (load (fst (set_tombstone ex_fs 2 true NoFault))) = Some [1%N].
+Proof. vm_compute. reflexivity. Qed.
+(* hypotheses of C17_inverse_restores / C17_set_idempotent are satisfiable *)
+Example ex_inverse :
+  exists f1 f2, set_tombstone ex_fs 2 (negb false) NoFault = (f1, Ok tt) /\ set_tombstone f1 2 false NoFault = (f2, Ok tt)
+                /\ load f2 = load ex_fs.
+Proof. eexists. eexists. split; [reflexivity|]. split; reflexivity. Qed.
+(* faults: rename failure and create failure report errors and change nothing *)
+Example ex_rename_fails : set_tombstone ex_fs 2 true RenameFails = (ex_fs, Err 3).
+Proof. reflexivity. Qed.
+Example ex_history :
+  snd (run_hist ex_fs [(2%N, true, RenameFails); (1%N, true, NoFault); (2%N, true, CreateTempFails)]) = [Err 3; Ok tt; Err 2]
+  /\ option_map (map r_tomb) (effective (fst (run_hist ex_fs [(2%N, true, RenameFails); (1%N, true, NoFault); (2%N, true, CreateTempFails)]))) = Some [true; false].
+Proof. split; reflexivity. Qed.
